@@ -18,7 +18,7 @@ RULE = ("scenario = handshake with a correct peer, then 1..12 operations from se
         "ping, pong and binary opcodes; one frame object sent twice, with new data, or on a second connection that has another "
         "key source), send_close, "
         "close; payload lengths boundary-heavy; key source in {default os.urandom seam, custom bytes function, custom "
-        "ASCII str function}; trace logging off/on; seeded short-write pattern.  Oracle: the bytes the peer received "
+        "ASCII str function, custom str function over all 256 byte values}; trace logging off/on; seeded short-write pattern.  Oracle: the bytes the peer received "
         "during each call decode (reference codec) to exactly one frame with the requested FIN/opcode, RSV=0, MASK=1, "
         "minimal length form, payload equal to the caller's bytes; the 4 key bytes equal the single draw the key "
         "source made during the call; the call returns the frame length; websockets' ServerProtocol (independent "
@@ -93,7 +93,7 @@ def expand(item, seed):
                 yield {"ops": ops, "key": ("default", "bytes", "str")[(lens[i] // 10) % 3], "trace": False,
                        "accept": [0, 4096, 1, 0] if lens[i] % 20 == 0 else [], "seed": lens[i] + 1}
             return
-        for key in ("default", "bytes", "str"):
+        for key in ("default", "bytes", "str", "str8"):
             for kind, opcode in (("text", 1), ("bytes", 2), ("bytearray", 2)):
                 ops = [{"op": "send", "kind": kind, "len": n, "opcode": opcode, "pseed": n} for n in lens
                        if not (kind == "text" and n > 30000)]
@@ -194,7 +194,7 @@ def gen(rng):
     accept = []
     if rng.random() < 0.5:
         accept = [rng.choice((1, 2, 3, 7, 100, 1460, 16384, 0)) for _ in range(rng.randrange(1, 8))]
-    return {"ops": ops, "key": rng.choice(("default", "default", "bytes", "str")), "trace": rng.random() < 0.3,
+    return {"ops": ops, "key": rng.choice(("default", "default", "bytes", "str", "str8")), "trace": rng.random() < 0.3,
             "accept": accept, "accept_cyclic": rng.random() < 0.5, "seed": rng.randrange(1 << 30)}
 
 
@@ -203,7 +203,7 @@ def run(sc, choices=None):
     try:
         ops = list(sc["ops"])
         keysrc = sc.get("key", "default")
-        if keysrc not in ("default", "bytes", "str"):
+        if keysrc not in ("default", "bytes", "str", "str8"):
             raise InvalidScenario("key")
         prepared = []
         for op in ops:
@@ -248,6 +248,12 @@ def run(sc, choices=None):
         keylog.append(s.encode("ascii"))
         return s
 
+    def key_str8(n):
+        # a str key whose characters are byte values 0..255 (one character = one key byte)
+        s = "".join(chr(kr.choice((kr.randrange(0x80, 0x100), kr.randrange(0x21, 0x100)))) for _ in range(n))
+        keylog.append(s.encode("latin-1"))
+        return s
+
     ctxbase = f"key_{keysrc}"
     sig = []
     with w:
@@ -257,6 +263,8 @@ def run(sc, choices=None):
             kw["get_mask_key"] = key_bytes
         elif keysrc == "str":
             kw["get_mask_key"] = key_str
+        elif keysrc == "str8":
+            kw["get_mask_key"] = key_str8
         c = ws.WebSocket(**kw)
         c.settimeout(5)
         c.connect(f"ws://{HOST}/")
